@@ -169,6 +169,40 @@ static void backend_sequential()
     pmc_outcome("kind=%d len=%d size=%zu", KIND, len, ref.size());
 }
 
+// back-ends, single-threaded, sizes that cross the containers' internal boundaries (ConcurrentQueue: 32
+// elements per block, block index of 32 entries = 1024 elements, index growth after blocks were recycled):
+// push a, pop a, push b, pop c, drain - order and exactly-once against a std::deque
+template <typename B, int KIND>
+static void backend_phases()
+{
+    static const int A[] = {0, 31, 32, 33, 96, 100}, Bn[] = {1, 32, 1023, 1024, 1025, 3000};
+    int a = A[pmc_choose(6, 0)], b = Bn[pmc_choose(6, 0)], partial = pmc_choose(2, 0);
+    B q(8);
+    std::deque<long> ref;
+    long next = 1;
+    auto push = [&](int n) { for (int i = 0; i < n; ++i) { PMC_ASSERT(q.push(next), "be-push", "push failed"); if (KIND == 0) ref.push_back(next); else ref.push_front(next); ++next; } };
+    auto pop = [&](long n) {
+        for (long i = 0; i < n; ++i)
+        {
+            long v = -1;
+            bool ok = q.pop(v, false);
+            PMC_ASSERT(ok == !ref.empty(), "be-pop-result", "pop %ld returned %d with %zu elements inside (a=%d b=%d)", i, (int) ok, ref.size(), a, b);
+            if (!ok) return;
+            bool from_front = KIND == 0 || KIND == 1 || KIND == 3;    // fifo: oldest; lifo / abp_lifo owner: newest (left); abp_fifo owner: right (oldest)
+            long want = from_front ? ref.front() : ref.back();
+            PMC_ASSERT(v == want, "be-order", "kind %d: pop %ld returned %ld, expected %ld (a=%d b=%d: every element exactly once, in the stated order)", KIND, i, v, want, a, b);
+            if (from_front) ref.pop_front(); else ref.pop_back();
+        }
+    };
+    push(a);
+    pop(a);
+    push(b);
+    pop(partial ? b / 25 + 1 : b);
+    push(40);
+    pop((long) ref.size() + 1);    // drains; the last pop must fail
+    pmc_outcome("kind=%d a=%d b=%d", KIND, a, b);
+}
+
 template <typename B, int P, int C>
 static void backend_concurrent()
 {
@@ -220,6 +254,10 @@ int main(int argc, char** argv)
         {"be_lifo_seq", backend_sequential<pt::lockfree_lifo_backend<int>, 1>, 0, 0, 0.02, 0.01, 0, "sequential", nullptr, nullptr},
         {"be_abp_fifo_seq", backend_sequential<pt::lockfree_abp_fifo_backend<int>, 2>, 0, 0, 0.02, 0.01, 0, "sequential", nullptr, nullptr},
         {"be_abp_lifo_seq", backend_sequential<pt::lockfree_abp_lifo_backend<int>, 3>, 0, 0, 0.02, 0.01, 0, "sequential", nullptr, nullptr},
+        {"be_fifo_phases", backend_phases<pt::lockfree_fifo_backend<long>, 0>, 0, 0, 0.02, 0.01, 0, "sequential, sizes across the block (32) and block-index (1024) boundaries of ConcurrentQueue", nullptr, nullptr},
+        {"be_lifo_phases", backend_phases<pt::lockfree_lifo_backend<long>, 1>, 0, 0, 0.02, 0.01, 0, "sequential, boundary sizes", nullptr, nullptr},
+        {"be_abp_fifo_phases", backend_phases<pt::lockfree_abp_fifo_backend<long>, 2>, 0, 0, 0.02, 0.01, 0, "sequential, boundary sizes", nullptr, nullptr},
+        {"be_abp_lifo_phases", backend_phases<pt::lockfree_abp_lifo_backend<long>, 3>, 0, 0, 0.02, 0.01, 0, "sequential, boundary sizes", nullptr, nullptr},
         {"dq_2x1", dq_concurrent<2, 1, 4>, 3, 6, 0.1, 0.1, 1, "F-site: all atomics in deque.hpp / freelist (anchor 128-bit CAS, node links, freelist head)", dsites, nullptr},
         {"dq_2x2", dq_concurrent<2, 2, 4>, 1, 2, 0.3, 0.3, 1, "F-site: deque.hpp / freelist", dsites, nullptr},
         {"dq_3x1", dq_concurrent<3, 1, 4>, 1, 3, 0.2, 0.2, 1, "F-site: deque.hpp / freelist", dsites, nullptr},
